@@ -89,7 +89,22 @@ check('C16', 'complete pair table of synthetic custom span tokens (Allen relatio
       'Outcome is not asserted where the statement is silent (equal starts, match inside the other\'s delimiter, container that does not parse inner).',
       'DESIGN.md 5/C16')
 
+check('C04', 'Hypothesis-generated texts; metamorphic relation between the parse of a text and of its block-quote / list-item embedding',
+      'hypothesis-sharded',
+      'For sampled tab-free texts the own dump of Document(embed(t)) must equal the dump of Document(t) wrapped in one Quote, resp. one '
+      'single-item List whose leader, content offset and start are as written; link definitions must be unchanged. Marker spelling '
+      '(>, "> ", 0-3 spaces; -, +, *, N., N) with 1-4 spaces) is drawn per case.',
+      'Sampling only; line numbers set aside (C13).',
+      'DESIGN.md 5/C04')
+
+check('C05', 'Hypothesis-generated pairs of texts; metamorphic relation AST(A + blank + B) = AST(A) ++ shifted AST(B)',
+      'hypothesis-sharded',
+      'For sampled pairs meeting the side conditions the own dump (all scalar attributes and line numbers) of the combined document must be '
+      'the concatenation of the separate dumps with B\'s line numbers shifted.',
+      'Sampling only; side conditions evaluated on the separate parses.',
+      'DESIGN.md 5/C05')
+
 _PENDING = 'check not built yet in this revision (work in progress; technique applies, see DESIGN.md section 5)'
-for _p in ['C03', 'C04', 'C05', 'C07', 'C09', 'C10', 'C13',
+for _p in ['C03', 'C07', 'C09', 'C10', 'C13',
            'C19']:
     NOT_YET[_p] = _PENDING
